@@ -7,7 +7,7 @@ PROPS["C07"] = {
     "rule": "cases J+M = every document of the C02 enumeration without raw values (full leaf alphabet alone and in one-level containers, all byte values in "
             "strings and keys, all trees with <= N nodes (quick 3, thorough 4), chains of depth 1..12 with the default nesting limit up to 10 and NestingLimit(255) "
             "beyond; thorough adds depth 100 and 200), plus strings and containers on the MessagePack width boundaries; "
-            "cases X = every text printed by the reference printer from all trees with <= N nodes (quick 3, thorough 4) over the C01 leaf and key alphabets "
+            "cases X = every text printed by the reference printer from all trees with <= 3 nodes over the C01 leaf and key alphabets (thorough adds all 4-node trees with the 13-leaf reduced alphabet below the root) "
             "(duplicate keys allowed). non-trivial = document with a container, string, float or integer beyond 32 bits; distinct by case key",
     "assumptions": ["J: the text is judged in two composed steps through the independent parser: printed literal vs the stored value by the C12 printing bound, "
                     "value read back vs the printed literal by the C12 parsing rule (refjson::matches); an integral float may come back integer-typed",
